@@ -291,6 +291,8 @@ def canon_jvalue(v, letters):
 # ---- random data of a type.  A generated datum carries what is needed to print it (literal spellings)
 FLOAT_LITS = ['0.0', '1.0', '1.5', '0.1', '0.25', '100.0', '1e5', '1.25e-3', '3.0e10', '123456.789', '2.5E+3', '0.000001', '9.75', '12e-2']
 
+FLOAT_FILTER = [False]     # run_c04_typed outside float_roundtrip: only f64 data that prints as a short literal
+
 def rand_float_lit(rng, single):
     if rng.random() < 0.4:
         s = rng.choice(FLOAT_LITS)
@@ -305,6 +307,29 @@ def rand_float_lit(rng, single):
     if rng.random() < 0.3:
         s = '-' + s
     return s
+
+def prints_short(x):
+    """does the f64 x print (ryu, as serde_json writes it) as a literal the default parser reads exactly: at most 15 digits
+    in the printed mantissa (the integer form d...d000.0 counts its zeros) and a decimal exponent within +-22?"""
+    if x == 0.0:
+        return True
+    r = repr(abs(x))
+    if 'e' in r:
+        m, e = r.split('e')
+        e = int(e)
+    else:
+        m, e = r, 0
+    ip, _, fp = m.partition('.')
+    digits = (ip + fp).lstrip('0')
+    point = len(ip) + e                       # value = 0.<ip fp> * 10^point
+    lead = len(ip + fp) - len((ip + fp).lstrip('0'))
+    digits = digits.rstrip('0') or '0'
+    kk = point - lead + 0                      # position of the decimal point relative to the first significant digit
+    olen = len(digits)
+    exp10 = kk - olen                          # value = digits * 10^exp10
+    if exp10 >= 0 and kk <= 16:
+        return kk + 1 <= 15                    # printed as an integer followed by ".0"
+    return olen <= 15 and abs(exp10) <= 22
 
 def rand_int(rng, code):
     lo, hi = INTS[code]
@@ -327,6 +352,8 @@ def rand_kdval(rng, k):
         return ('c', ord(rand_char(rng)))
     if c in 'df':
         lit = rand_float_lit(rng, c == 'f')
+        while c == 'd' and FLOAT_FILTER[0] and not prints_short(float(lit)):
+            lit = rand_float_lit(rng, False)
         return ('d', f32_as_f64bits(float(lit)) if c == 'f' else f64bits(float(lit)), lit)
     if c in 'ow':
         return (c, rand_kdval(rng, k[1]))
@@ -354,6 +381,8 @@ def rand_dval(rng, t, letters='-', maxlen=4):
         return ('i', rand_int(rng, t[1]))
     if c in 'df':
         lit = rand_float_lit(rng, c == 'f')
+        while c == 'd' and FLOAT_FILTER[0] and not prints_short(float(lit)):
+            lit = rand_float_lit(rng, False)
         return ('d', f32_as_f64bits(float(lit)) if c == 'f' else f64bits(float(lit)), lit)
     if c == 'c':
         return ('c', ord(rand_char(rng)))
@@ -1334,10 +1363,14 @@ def run_c04_typed(ctx):
         opts = ('nog', 'noz') + (('raw',) if 'raw_value' in feats else ())
         n = 6000 if ctx.tier == 'quick' else 60000
         cases = []
-        for _ in range(n):
-            t = rand_ty(rng, rng.choice([0, 1, 2, 2, 3, 3, 4]), opts)
-            d = rand_dval(rng, t, L)
-            cases.append((t, d))
+        FLOAT_FILTER[0] = 'float_roundtrip' not in feats
+        try:
+            for _ in range(n):
+                t = rand_ty(rng, rng.choice([0, 1, 2, 2, 3, 3, 4]), opts)
+                d = rand_dval(rng, t, L)
+                cases.append((t, d))
+        finally:
+            FLOAT_FILTER[0] = False
         lines = ['rt %s %s %s' % (L, enc_ty(t), enc_dval(d)) for t, d in cases]
         outs = ctx.impl(cfg, lines, name=IMPL)
         v = []
